@@ -43,6 +43,8 @@ func (e *Expr) String() string {
 		return e.Args[0].String() + "[" + e.Args[1].String() + "]"
 	case "old":
 		return "old(" + e.Args[0].String() + ")"
+	case "entry":
+		return "entry(" + e.Args[0].String() + ")"
 	case "forall", "exists":
 		var vs []string
 		for _, v := range e.Vars {
@@ -353,6 +355,8 @@ func (p *exprParser) parsePostfix() *Expr {
 					p.fail("old() takes one argument")
 				}
 				e = &Expr{Kind: "old", Args: args}
+			} else if name == "entry" && len(args) == 1 {
+				e = &Expr{Kind: "entry", Args: args}
 			} else {
 				e = &Expr{Kind: "call", Name: name, Args: args}
 			}
